@@ -3,6 +3,7 @@
   Compiled as a `lean_exe`; imports only the Mathlib-free model.
 -/
 import Asn1
+import Asn1.KernelDriver
 
 open Asn1
 
@@ -93,7 +94,8 @@ def handle : List Sexp → Option String
 
 /-- every model module contributes a handler; the first one that recognises the request answers -/
 def handlers : List (List Sexp → Option String) :=
-  [handle, Asn1.Time.handle, Asn1.Stream.handle, Asn1.Constraint.handle, Asn1.Container.handle, Asn1.Native.handle]
+  [handle, Asn1.Time.handle, Asn1.Stream.handle, Asn1.Constraint.handle, Asn1.Container.handle, Asn1.Native.handle,
+   Asn1.KernelDriver.handle]
 
 def dispatch (sx : List Sexp) : Option String :=
   handlers.findSome? (fun h => h sx)
